@@ -179,7 +179,7 @@ func checkAccessors(value string, num *big.Rat) string {
 				return fmt.Sprintf("Uint64()=%d, spelling means %v", got, num)
 			}
 		}
-	} else if !math.IsInf(wantF, 0) && wantF >= 0 && wantF < 9e18 {
+	} else if !math.IsInf(wantF, 0) && wantF >= 0 && wantF < 1.8446744073709551e19 {
 		if got := lit.Uint64(); got != uint64(wantF) {
 			return fmt.Sprintf("Uint64()=%d for float spelling %q (want %d)", got, value, uint64(wantF))
 		}
@@ -254,6 +254,8 @@ var lexPieces = []string{
 	"'\\u0041'", "\"\\u0027\"", "0.5.5", "0..5", "00.1.2",
 	"\xa0", "\x85", " \xa0", "\n\x85", "\ufeff", "00e5", "000e-3", "00E0", "0.0e5", "00.5e1", "0e5",
 	"1e0002147483647", "1e-0002147483647", "1e00000000309", "1e000000", "2e+0000000000000000001",
+	"tas\u212a", "\u212a", "\u0130", "\u017f", "\u212b", "K\u212a", "1e19", "12E18", "1.6e19", "9223372036854775808.0", "18446744073709551615.0", "1.8446744073709552e19",
+	"'\u65e5\u65e5\u65e5\u65e5\u65e5\u65e5\u65e5\u65e5\u65e5\u65e5\u65e5\u65e5\u65e5\u65e5\u65e5\u65e5\u65e5\u65e5\u65e5\u65e5\u65e5\u65e5'", "`\U0001f600\U0001f600\U0001f600\U0001f600\U0001f600\U0001f600\U0001f600\U0001f600\U0001f600\U0001f600\U0001f600\U0001f600\U0001f600\U0001f600\U0001f600\U0001f600\U0001f600`", "'\u65e5\u65e5\u65e5\u65e5\u65e5\u65e5\u65e5\u65e5\u65e5\u65e5\u65e5\u65e5\u65e5\u65e5\u65e5\u65e5\u65e5\u65e5\u65e5\u65e5\u65e5\u65e5\u65e5\u65e5\u65e5",
 	"len_src_len547 src_len_rows68", "rows_evt_src821 len_addr_len723", "src_path_time86 flag_src_evt854", "name_name_rows0 size_src_len421", "dst_src_host256 read_read_cost8", "evt_src_name591 code_src_len575",
 	"0x1F\uff10", "0x\uff21", "\uff10", "1\uff10", "'\\\u016e'", "\"\\\U0001f46e\"", "'\\\u0174x\\\u2074'", "`\\\u016e`", "h'abc", "H\"abc", "h'a'", "@'a'", "1e- ", "1e+x", "1E-|", "x between (1 .. 2)", "1..2", "a..b",
 	"'12.5'", "\"1e3\"", "'7'", "'0x10'", "\"Infinity\"", "'NaN'", "'-0'",
